@@ -12,7 +12,7 @@ PASSWORDS = [b"hunter2", b"pw", b"root", b"p w", b""]
 GARBAGE = [b"[    0.000000] Booting Linux on physical CPU 0x0\r\n", b"random: crng init done\r\n", b"\r\n",
            b"login", b"login:", b"assword", b"ogin: x", b"U-Boo", b"=>", b"auto", b"\xe2\x9c", b"\x93 ok\r\n",
            b"Starting kernel ...\r\n\r\n", b"Hit any key", b"\n\r", b"\r", b"Please press", b"DRAM:  1 GiB\r\n",
-           b"##", b"\x1b[0m", b"x"]
+           b"##", b"\x1b[0m", b"x", b"\x1b[2J\x1b[H", b"\x1b7\x1b[r\x1b[999;999H\x1b[6n", b"\x1b[", b"H\x1b[u"]
 
 
 def pcs(l):
